@@ -3,4 +3,5 @@ pub mod c05;
 pub mod c08;
 pub mod c09;
 pub mod c11;
+pub mod c12;
 pub mod libprops;
